@@ -132,12 +132,14 @@ def replay_init_params(vals, oid):
     """the real init_params on a real recording of the counter-model's length (a small one when the model's is impractical)"""
     import scipy.signal
     ns = vals.get("ns")
-    cases = [(ns if isinstance(ns, int) and 1 <= ns <= 40000 else 7001, vals.get("nsamples_arg"), vals.get("nwindow_arg")), (7001, None, None), (3000, 2999, 1200)]
+    rt = vals.get("imSampRate")
+    rt = float(rt) if isinstance(rt, (int, float)) and 29000 < rt < 31000 else None
+    cases = [(ns if isinstance(ns, int) and 1 <= ns <= 40000 else 7001, vals.get("nsamples_arg"), vals.get("nwindow_arg"), rt), (7001, None, None, None), (3000, 2999, 1200, None), (7001, None, None, 30000.6), (3805, None, None, None)]
     bad = []
-    for n, na, wa in cases:
+    for n, na, wa, rate in cases:
         d = tempfile.mkdtemp(prefix="c03_")
         try:
-            ap, _ = _mk_np24(d, 0.5, 8192, ns=n, rng=np.random.default_rng(1))
+            ap, _ = _mk_np24(d, 0.5, 8192, ns=n, rng=np.random.default_rng(1), rate=rate)
             conv = neuropixel.NP2Converter(ap, post_check=False, compress=False)
             kw = {k_: v for k_, v in (("nsamples", na), ("nwindow", wa)) if isinstance(v, int) and v >= 1}
             try:
@@ -148,7 +150,7 @@ def replay_init_params(vals, oid):
             want = dict(nsamples=kw.get("nsamples", n), samples_window=kw.get("nwindow", 60000), ratio=N.RATIO, samples_overlap=N.OVERLAP, samples_taper=N.TAPER, napch=384, idxsyncch=384)
             got = {k_: getattr(conv, k_, None) for k_ in want}
             if got != want or not np.array_equal(conv.taper, np.r_[0, scipy.signal.windows.cosine((N.TAPER - 1) * 2), 0]) or want["samples_window"] % N.RATIO:
-                bad.append({"recording_samples": n, "arguments": kw, "expected": want, "got": {k_: (int(v) if isinstance(v, (int, np.integer)) else repr(v)) for k_, v in got.items()}})
+                bad.append({"recording_samples": n, "sampling_rate": rate or 30000, "arguments": kw, "expected": want, "got": {k_: (int(v) if isinstance(v, (int, np.integer)) else repr(v)) for k_, v in got.items()}})
             conv.sr.close()
         finally:
             shutil.rmtree(d, ignore_errors=True)
@@ -166,9 +168,12 @@ def h_init_params(H):
         def body(it, how=how):
             ns, napch = z3.Ints("ns napch")
             it.ctx.assume(z3.And(ns >= 1, napch >= 1))
-            meta = {"typeThis": "imec", "snsApLfSy": [SV(z3.ToReal(napch)), 0.0, 1.0], "nSavedChans": SV(z3.ToReal(napch + 1)), "imSampRate": 30000.0}
+            rate = z3.Real("imSampRate")          # the calibrated rate of the probe: close to, never exactly, the nominal 30 kHz
+            it.ctx.assume(z3.And(rate > 29000, rate < 31000))
+            meta = {"typeThis": "imec", "snsApLfSy": [SV(z3.ToReal(napch)), 0.0, 1.0], "nSavedChans": SV(z3.ToReal(napch + 1)), "imSampRate": SV(rate)}
             sr = SObj(spikeglx.Reader, meta=meta, ns=SV(ns))
             conv = SObj(neuropixel.NP2Converter, sr=sr, np_version="NP2.4")
+            H.input(imSampRate=rate)
             kw = {}
             if how == "given":
                 n_arg, w_arg = z3.Ints("nsamples_arg nwindow_arg")
@@ -367,7 +372,7 @@ def h_meta_roundtrip(H):
 FIXM = os.path.join(os.path.dirname(spikeglx.__file__), "tests", "fixtures", "np2split", "NP24_meta", "_spikeglx_ephysData_g0_t0.imec0.ap.meta")
 
 
-def _mk_np24(d, rng_v, maxint, ns, values="random", rng=None, shank_perm=None, fixm=None):
+def _mk_np24(d, rng_v, maxint, ns, values="random", rng=None, shank_perm=None, fixm=None, rate=None):
     pdir = os.path.join(d, "raw_ephys_data", "probe00")
     os.makedirs(pdir)
     ap = os.path.join(pdir, "_spikeglx_ephysData_g0_t0.imec0.ap.bin")
@@ -387,7 +392,9 @@ def _mk_np24(d, rng_v, maxint, ns, values="random", rng=None, shank_perm=None, f
             if line.startswith("fileSizeBytes"):
                 line = f"fileSizeBytes={ns * nc * 2}\n"
             elif line.startswith("fileTimeSecs"):
-                line = f"fileTimeSecs={ns / 30000:.10f}\n"
+                line = f"fileTimeSecs={ns / (rate or 30000):.12f}\n"
+            elif line.startswith("imSampRate") and rate:
+                line = f"imSampRate={rate}\n"
             elif line.startswith("imAiRangeMax"):
                 line = f"imAiRangeMax={rng_v}\n"
             elif line.startswith("imAiRangeMin"):
